@@ -1,8 +1,116 @@
-import Pun.Model.Proto
+import Pun.Model.WellFormed
+import Pun.Drv.PBoxCommon
+/-!
+C04 line protocol (after the case id):
+
+* `mkn <steps> <lb> <hb> <lists 0|1> <left> <right>`     — the full constructor; list entries may be `nan`
+* `bsc <steps> <lb> <hb> <bound>`                         — `bound_steps_check` alone
+* `ev  <steps> <lb> <hb> <expr…>`                         — a history, prefix notation:
+    `L <lists> <left> <right>` | `B <op> <dep> e e` | `N <op> <c> e` | `R <op> <c> e` | `G e` (negation)
+    | `C e` (reciprocal) | `U <exp|sqrt|log> <keys> <values> e` | `E e e` (envelope) | `I e e` (imposition)
+* `evng …`                                                 — the same through `evalNG`
+* anything else: the shared p-box handler.
+-/
 namespace Pun.Drv.C04
-open Pun
+open Pun Pun.PBox Pun.WF Pun.Drv.PBoxCommon
+
+def parseNR (s : String) : Option NR :=
+  if s == "nan" then some none else (parseRat s).map some
+
+def parseNRList (s : String) : Option (List NR) := do
+  let body ← unbracket s
+  if body.isEmpty then some [] else (body.splitOn ",").mapM parseNR
+
+def showNR : NR → String
+  | some x => showRat x
+  | none => "nan"
+
+def showNRList (l : List NR) : String := "[" ++ ",".intercalate (l.map showNR) ++ "]"
+
+def parseCfg (steps lb hb : String) : Option Cfg := do
+  let n ← parseNat steps
+  let a ← parseRat lb
+  let b ← parseRat hb
+  some ⟨n, a, b⟩
+
+def parseKind : String → Option UKind
+  | "exp" => some .exp | "sqrt" => some .sqrt | "log" => some .log | _ => none
+
+def parseBool : String → Option Bool
+  | "0" => some false | "1" => some true | _ => none
+
+def parseTable (ks vs : String) : Option (List (Rat × Rat)) := do
+  let k ← parseList ks
+  let v ← parseList vs
+  if k.length ≠ v.length ∨ k.isEmpty then none else some (k.zip v)
+
+/-- prefix parser; `fuel` bounds the recursion depth (the token count is enough) -/
+def parseExpr : Nat → List String → Option (Expr × List String)
+  | 0, _ => none
+  | fuel + 1, toks =>
+    match toks with
+    | "L" :: lists :: l :: r :: rest => do
+      let b ← parseBool lists
+      let l ← parseNRList l
+      let r ← parseNRList r
+      some (.leaf b l r, rest)
+    | "B" :: op :: dep :: rest => do
+      let o ← parseOp op
+      let d ← parseDep dep
+      let (a, rest) ← parseExpr fuel rest
+      let (b, rest) ← parseExpr fuel rest
+      some (.bin o d a b, rest)
+    | "N" :: op :: c :: rest => do
+      let o ← parseOp op
+      let c ← parseRat c
+      let (a, rest) ← parseExpr fuel rest
+      some (.num o a c, rest)
+    | "R" :: op :: c :: rest => do
+      let o ← parseOp op
+      let c ← parseRat c
+      let (a, rest) ← parseExpr fuel rest
+      some (.rnum o c a, rest)
+    | "G" :: rest => do
+      let (a, rest) ← parseExpr fuel rest
+      some (.neg a, rest)
+    | "C" :: rest => do
+      let (a, rest) ← parseExpr fuel rest
+      some (.recip a, rest)
+    | "U" :: k :: ks :: vs :: rest => do
+      let k ← parseKind k
+      let t ← parseTable ks vs
+      let (a, rest) ← parseExpr fuel rest
+      some (.unary k t a, rest)
+    | "E" :: rest => do
+      let (a, rest) ← parseExpr fuel rest
+      let (b, rest) ← parseExpr fuel rest
+      some (.env a b, rest)
+    | "I" :: rest => do
+      let (a, rest) ← parseExpr fuel rest
+      let (b, rest) ← parseExpr fuel rest
+      some (.imp a b, rest)
+    | _ => none
 
 def handle : List String → String
-  | _ => "bad-op"
+  | ["mkn", steps, lb, hb, lists, l, r] =>
+    match parseCfg steps lb hb, parseBool lists, parseNRList l, parseNRList r with
+    | some c, some b, some l, some r => showPB (mkN c b l r)
+    | _, _, _, _ => "bad-op"
+  | ["bsc", steps, lb, hb, b] =>
+    match parseCfg steps lb hb, parseNRList b with
+    | some c, some b =>
+      match boundStepsN c b with
+      | .ok l => s!"ok {showNRList l}"
+      | .error e => s!"err {e}"
+    | _, _ => "bad-op"
+  | "ev" :: steps :: lb :: hb :: toks =>
+    match parseCfg steps lb hb, parseExpr (toks.length + 1) toks with
+    | some c, some (e, []) => showPB (eval c e)
+    | _, _ => "bad-op"
+  | "evng" :: steps :: lb :: hb :: toks =>
+    match parseCfg steps lb hb, parseExpr (toks.length + 1) toks with
+    | some c, some (e, []) => showPB (evalNG c e)
+    | _, _ => "bad-op"
+  | toks => Pun.Drv.PBoxCommon.handle toks
 
 end Pun.Drv.C04
